@@ -80,7 +80,7 @@ def pool_la(r, real):
     n = r.randint(6, 12)
     while len(atoms) < n:
         t = r.choice(terms)
-        c = num(r.randint(-6, 6)) if not real or r.random() < 0.8 else num(r.randint(-9, 9), r.choice([2, 3]))
+        c = num(r.randint(-3, 3)) if not real or r.random() < 0.8 else num(r.randint(-5, 5), r.choice([2, 3]))
         a = "(%s %s %s)" % (r.choice(["<=", "<", ">=", ">"]), t, c)
         if a not in atoms:
             atoms.append(a)
@@ -95,7 +95,7 @@ def pool_dl(r, real):
     atoms = []
     n = r.randint(6, 12)
     while len(atoms) < n:
-        k = num(r.randint(-4, 4))
+        k = num(r.randint(-2, 2))
         if r.random() < 0.75:
             a, b = r.sample(vs, 2)
             t = "(%s (- %s %s) %s)" % (r.choice(["<=", "<", ">=", ">"]), a, b, k)
@@ -107,7 +107,7 @@ def pool_dl(r, real):
 
 
 def pool_uf(r):
-    cs = ["a", "b", "c", "d"]
+    cs = ["a", "b", "c", "d"][: r.randint(3, 4)]
     hdr = ["sort U"] + ["fun %s U" % c for c in cs] + ["fun f U U", "fun g U U U", "fun p Bool U"]
     z3 = ["(declare-sort U 0)"] + ["(declare-fun %s () U)" % c for c in cs] + ["(declare-fun f (U) U)", "(declare-fun g (U U) U)", "(declare-fun p (U) Bool)"]
 
@@ -122,7 +122,8 @@ def pool_uf(r):
     n = r.randint(6, 12)
     while len(atoms) < n:
         if r.random() < 0.8:
-            a, b = term(2), term(2)
+            d = r.choice([0, 1, 1, 2])
+            a, b = term(d), term(r.choice([0, 1, 1, 2]))
             if a == b:
                 continue
             t = "(= %s %s)" % (a, b)
@@ -184,9 +185,12 @@ def gen_pool(r, th):
     return pool_ax(r)
 
 
-def gen_ops(r, natoms, nops):
+def gen_ops(r, natoms, nops, late_ok=True, pos_bias=0.5):
     ops = []
-    late = set(k for k in range(natoms) if r.random() < 0.2)
+    # atoms declared after assertions have begun: only where the solver supports it (LASolver::declareAtom after
+    # initSolver, used for split atoms); the other solvers get every atom before the first assertion, as
+    # CoreSMTSolver::declareVarsToTheories does at the start of each solve
+    late = set(k for k in range(natoms) if late_ok and r.random() < 0.2)
     for k in range(natoms):
         if k not in late:
             ops.append("D%d" % k)
@@ -196,15 +200,17 @@ def gen_ops(r, natoms, nops):
         x = r.random()
         if late and x < 0.06:
             ops.append("D%d" % late.pop())
-        elif x < 0.50:
-            ops.append("A%d%s" % (r.randrange(natoms), r.choice("+-")))
-        elif x < 0.58:
+        elif x < 0.56:
+            ops.append("A%d%s" % (r.randrange(natoms), "+" if r.random() < pos_bias else "-"))
+            if r.random() < 0.12:
+                ops.append("F")
+        elif x < 0.63:
             ops.append("X%d" % r.randrange(8))
-        elif x < 0.66:
+        elif x < 0.69:
             ops.append("G")
-        elif x < 0.72:
+        elif x < 0.74:
             ops.append("C0")
-        elif x < 0.86:
+        elif x < 0.88:
             ops.append("C1")
             if r.random() < 0.4:
                 ops.append("F")
@@ -316,22 +322,39 @@ def lit_text(atoms, k, s):
     return atoms[k] if s else "(not %s)" % atoms[k]
 
 
+def z3_multi(items):
+    """items: list of (z3decl, atoms, queries) -> list of result lists; ONE z3 process ((reset) between items)."""
+    lines = []
+    for z3decl, atoms, queries in items:
+        lines.append("(reset)")
+        lines += list(z3decl)
+        for q in queries:
+            lines.append("(push 1)")
+            for k, s in q:
+                lines.append("(assert %s)" % lit_text(atoms, k, s))
+            lines.append("(check-sat)")
+            lines.append("(pop 1)")
+        lines.append('(echo "@@")')
+    rc, out = vlib.run_ref("z3", "\n".join(lines) + "\n", timeout=600)
+    res, cur = [], []
+    for l in out.split("\n"):
+        l = l.strip()
+        if l == "@@":
+            res.append(cur)
+            cur = []
+        elif l in ("sat", "unsat", "unknown"):
+            cur.append(l)
+        elif l:
+            cur.append("unknown")      # an error line of z3 takes the place of an answer
+    out_res = []
+    for i, (z3decl, atoms, queries) in enumerate(items):
+        r = res[i] if i < len(res) else []
+        out_res.append(r if len(r) == len(queries) else ["unknown"] * len(queries))
+    return out_res
+
+
 def z3_batch(z3decl, atoms, queries):
-    """queries: list of list of (k, sign) -> list of 'sat'/'unsat'/'unknown'."""
-    if not queries:
-        return []
-    lines = list(z3decl)
-    for q in queries:
-        lines.append("(push 1)")
-        for k, s in q:
-            lines.append("(assert %s)" % lit_text(atoms, k, s))
-        lines.append("(check-sat)")
-        lines.append("(pop 1)")
-    rc, out = vlib.run_ref("z3", "\n".join(lines) + "\n", timeout=60)
-    res = [l.strip() for l in out.split("\n") if l.strip() in ("sat", "unsat", "unknown")]
-    if len(res) != len(queries):
-        return ["unknown"] * len(queries)
-    return res
+    return z3_multi([(z3decl, atoms, queries)])[0] if queries else []
 
 
 def collect_queries(th, ev):
@@ -351,15 +374,20 @@ def collect_queries(th, ev):
     return qs
 
 
-def judge(th, atoms, z3decl, ev):
+def query_keys(th, ev):
+    uniq = {}
+    for _, _, q in collect_queries(th, ev):
+        uniq.setdefault(tuple(sorted(set(q))), None)
+    return list(uniq)
+
+
+def judge(th, atoms, z3decl, ev, answers=None):
     """-> list of findings dict(sig, what, index)"""
     out = []
     qs = collect_queries(th, ev)
     uniq = {}
-    for _, _, q in qs:
-        uniq.setdefault(tuple(sorted(set(q))), None)
-    keys = list(uniq)
-    res = z3_batch(z3decl, atoms, [list(k) for k in keys])
+    keys = query_keys(th, ev)
+    res = answers if answers is not None else z3_batch(z3decl, atoms, [list(k) for k in keys])
     for k, v in zip(keys, res):
         uniq[k] = v
     last_check = None
@@ -393,16 +421,21 @@ def judge(th, atoms, z3decl, ev):
             if (e["verdict"] == "UNSAT" and v == "sat") or (e["verdict"] == "SAT" and v == "unsat"):
                 out.append(dict(sig="fresh-instance-wrong:%s" % th, index=i, lits=q,
                                 what="a fresh solver given only the current stack %s answers %s, z3 says %s" % (q, e["verdict"], v)))
-    # incremental vs fresh on the same stack (F directly follows a complete check)
+    # incremental vs fresh on the same stack (F directly follows a complete check or a conflict)
     for i in range(1, len(ev)):
         e, p = ev[i], ev[i - 1]
-        if e["kind"] == "fresh" and p["kind"] == "check" and p["complete"] and p["stack"] == e["stack"]:
-            a, b = p["verdict"], e["verdict"]
-            if th in COMPLETE and not p["splits"] and not e["splits"] and {a, b} == {"SAT", "UNSAT"}:
-                out.append(dict(sig="incremental-vs-fresh:%s" % th, index=i, lits=e["stack"],
-                                what="after the history the solver answers %s on the stack %s, a fresh instance answers %s" % (a, e["stack"], b)))
-            if th in ("LRA", "LIA") and a == "UNSAT" and b == "SAT" and not e["splits"] and th == "LRA":
-                pass
+        if e["kind"] != "fresh" or p["stack"] != e["stack"] or e["splits"]:
+            continue
+        if p["kind"] == "check" and p["complete"] and not p["splits"]:
+            a = p["verdict"]
+        elif p["kind"] == "assert" and not p["res"]:
+            a = "UNSAT"
+        else:
+            continue
+        b = e["verdict"]
+        if (th in COMPLETE and {a, b} == {"SAT", "UNSAT"}) or (th not in COMPLETE and a == "SAT" and b == "UNSAT" and False):
+            out.append(dict(sig="incremental-vs-fresh:%s" % th, index=i, lits=e["stack"],
+                            what="after the history the solver answers %s on the stack %s, a fresh instance answers %s" % (a, e["stack"], b)))
     return out
 
 
@@ -441,13 +474,16 @@ def norm_state(s):
     return re.sub(r"\s+", " ", s).strip()
 
 
-def la_tie(exe, th, ev):
+def la_tie(exe, th, ev, lines=None):
     """-> list of (name, detail, index)"""
     reqs, expect = la_requests(ev)
     if len(reqs) <= 1:
         return [], 0
-    rc, out = vlib.sh([exe], input="".join(r + "\n" for r in reqs), timeout=120)
-    lines = out.split("\n")
+    if lines is None:
+        rc, out = vlib.sh([exe], input="".join(r + "\n" for r in reqs), timeout=120)
+        lines = out.split("\n")
+    else:
+        rc = 0
     bad = []
     n = 0
     if rc != 0 or len(lines) < len(reqs):
@@ -496,15 +532,16 @@ def fresh_bounds_findings(th, ev):
 # ---------------------------------------------------------------------------------------------
 def process(job):
     """one sequence: returns dict(findings, ties, stats)"""
-    h, exe, sid, th, hdr, atoms, z3decl, ops, lines, complete = job
+    h, exe, sid, th, hdr, atoms, z3decl, ops, lines, complete = job[:10]
+    answers, la_lines = (job[10], job[11]) if len(job) > 10 else (None, None)
     ev = events_of(lines)
     res = dict(sid=sid, th=th, findings=[], ties=[], nstates=0, ev=ev)
     if not complete:
         res["findings"].append(dict(sig="solver-crash:%s" % th, what="the harness died while driving this history (last lines: %s)" % " / ".join(lines[-3:]), index=len(ev)))
         return res
-    res["findings"] += judge(th, atoms, z3decl, ev)
+    res["findings"] += judge(th, atoms, z3decl, ev, answers)
     if th in ("LRA", "LIA"):
-        bad, n = la_tie(exe, th, ev)
+        bad, n = la_tie(exe, th, ev, la_lines)
         res["ties"] += bad
         res["nstates"] = n
         res["findings"] += fresh_bounds_findings(th, ev)
@@ -574,47 +611,57 @@ def run(ctx):
     for p in sorted(glob.glob(os.path.join(vlib.VERIF, "corpus", "C22", "*.json"))):
         d = json.load(open(p))
         seqs.append((d["theory"], d["hdr"], d["atoms"], d["z3decl"], d["ops"]))
-    n = 1500 if ctx.quick else 50000
+    n = int(os.environ.get("C22_N", "0")) or (1500 if ctx.quick else 50000)
     for i in range(n):
         r = random.Random(ctx.seed * 15485863 + i * 101 + 22)
         th = r.choice(THEORIES)
         hdr, atoms, z3decl = gen_pool(r, th)
-        ops = gen_ops(r, len(atoms), r.randint(25, 60))
+        ops = gen_ops(r, len(atoms), r.randint(25, 60), late_ok=th in ("LRA", "LIA"), pos_bias=0.7 if th in ("UF", "AX") else 0.5)
         seqs.append((th, hdr, atoms, z3decl, ops))
     t0 = time.time()
     # harness: chunks of sequences, in parallel
     chunks = [list(range(k, min(k + 60, len(seqs)))) for k in range(0, len(seqs), 60)]
 
     def run_chunk(ix):
+        """harness, z3 and the extracted model: one process each for the whole chunk"""
         text = "".join(seq_text(str(j), *(seqs[j][k] for k in (0, 1, 2, 4))) for j in ix)
-        rc, out = run_harness(h, text)
-        return ix, rc, split_log(out)
-    with cf.ThreadPoolExecutor(max_workers=10) as ex:
-        chunk_res = list(ex.map(run_chunk, chunks))
-    ctx.note("harness: %d histories in %.1f s" % (len(seqs), time.time() - t0))
-    jobs = []
-    for ix, rc, logs in chunk_res:
-        died = None
+        rc, out = run_harness(h, text, timeout=150)
+        logs = split_log(out)
+        todo = []
         for j in ix:
+            th, hdr, atoms, z3decl, ops = seqs[j]
             sq = logs.get(str(j))
+            if sq is None:         # lost after a crash / hang of an earlier history of the chunk: run it alone
+                rc2, out2 = run_harness(h, seq_text(str(j), th, hdr, atoms, ops), timeout=20)
+                sq = split_log(out2).get(str(j)) or dict(lines=[], complete=False)
+            todo.append((j, sq))
+        evs = {j: events_of(sq["lines"]) for j, sq in todo}
+        items, la_in, la_count = [], [], {}
+        for j, sq in todo:
             th, hdr, atoms, z3decl, ops = seqs[j]
-            if sq is None:
-                if died is None:
-                    continue      # lost after a crash of an earlier history of the chunk: rerun alone below
-                continue
-            if not sq["complete"]:
-                died = j
-            jobs.append((h, exe, j, th, hdr, atoms, z3decl, ops, sq["lines"], sq["complete"]))
-        missing = [j for j in ix if str(j) not in logs]
-        for j in missing:         # histories that followed a crash in their chunk
+            items.append((z3decl, atoms, [list(k) for k in query_keys(th, evs[j])]))
+            if th in ("LRA", "LIA") and sq["complete"]:
+                reqs, _ = la_requests(evs[j])
+                la_count[j] = len(reqs) if len(reqs) > 1 else 0
+                if la_count[j]:
+                    la_in += reqs
+        zres = z3_multi(items)
+        la_out = []
+        if la_in:
+            rc3, out3 = vlib.sh([exe], input="".join(x + "\n" for x in la_in), timeout=600)
+            la_out = out3.split("\n")
+        res, pos = [], 0
+        for (j, sq), ans in zip(todo, zres):
             th, hdr, atoms, z3decl, ops = seqs[j]
-            rc2, out2 = run_harness(h, seq_text(str(j), th, hdr, atoms, ops), timeout=60)
-            sq = split_log(out2).get(str(j)) or dict(lines=[], complete=False)
-            jobs.append((h, exe, j, th, hdr, atoms, z3decl, ops, sq["lines"], sq["complete"]))
-    t0 = time.time()
-    with cf.ThreadPoolExecutor(max_workers=12) as ex:
-        results = list(ex.map(process, jobs))
-    ctx.note("judging (z3, extracted bound-stack model): %.1f s" % (time.time() - t0))
+            ll = None
+            if la_count.get(j):
+                ll = la_out[pos:pos + la_count[j]]
+                pos += la_count[j]
+            res.append(process((h, exe, j, th, hdr, atoms, z3decl, ops, sq["lines"], sq["complete"], ans, ll)))
+        return res
+    with cf.ThreadPoolExecutor(max_workers=10) as ex:
+        results = [r for rs in ex.map(run_chunk, chunks) for r in rs]
+    ctx.note("harness + z3 + extracted bound-stack model: %d histories in %.1f s" % (len(seqs), time.time() - t0))
     nstates = 0
     nverdicts = {}
     reported = set()
